@@ -1,6 +1,6 @@
 CONSTANTS
   MaxLen = 7
-  GraphIdx = {3, 4, 5, 6, 7}
+  GraphIdx = {3, 4, 5, 6, 7, 9}
   Alpha = "wide"
 SPECIFICATION Spec
 INVARIANT TypeInv
